@@ -862,11 +862,12 @@ impl DirectAddrUpdateState {
                 {
                     iroh_dns::verif::event("c25.report_done", &[]);
                     iroh_dns::verif::pause_async("c25.before_done_send").await;
+                    // recorded before the send, so that no reaction to the signal precedes it
+                    iroh_dns::verif::event("c25.done_sent", &[]);
                 }
                 run_done.send(()).await.ok();
                 #[cfg(iroh_verif)]
                 {
-                    iroh_dns::verif::event("c25.done_sent", &[]);
                     iroh_dns::verif::pause_async("c25.after_done_send").await;
                     iroh_dns::verif::event("c25.run_finish", &[]);
                 }
